@@ -292,6 +292,11 @@ def exception_origin(e):
     files = [os.path.realpath(f.filename) for f in frames]
     has_lib = any(f.startswith(src) for f in files)
     innermost_is_harness = files[-1].startswith(os.path.realpath(VERIF))
+    if has_lib and innermost_is_harness:
+        # library code called into a shadow value / proxy that could not serve the request
+        last_lib = max(i for i, f in enumerate(files) if f.startswith(src))
+        if all(f.startswith(os.path.realpath(VERIF)) for f in files[last_lib + 1:]) and os.path.basename(files[-1]) in ("symtrace.py",):
+            return "shadow"
     return "library" if has_lib and not innermost_is_harness else "harness"
 
 
@@ -306,7 +311,12 @@ def _worker_exception(it, e, cur):
         r.d["key"] = cur.d.get("key", r.d["key"])
         for k in ("ground_instances", "instances", "functions", "cuts"):
             r.d[k] = cur.d[k]
-    if exception_origin(e) == "harness":
+    origin = exception_origin(e)
+    if origin == "shadow":
+        r.ob(1)
+        r.inconc(f"the library asked a shadow value for something it does not model ({type(e).__name__}: {str(e)[:120]}): not executable symbolically, no verdict")
+        return r.as_dict()
+    if origin == "harness":
         r.herr("worker raised: " + text)
         return r.as_dict()
     what = f"the library raised {type(e).__name__}: {str(e)[:160]}"
